@@ -398,6 +398,8 @@ func vDeltaGrid(step time.Duration) []time.Duration {
 		ds = append(ds, d)
 	}
 	ds = append(ds, vPM(0, vNs, 2*vS, 2*vS-vNs, 2*vS+vNs, 1999999999*vNs, 2000000001*vNs)...)
+	// clocks that are off by a lot (dead RTC battery, wrong time zone, wrong year)
+	ds = append(ds, vPM(10*vS, 60*vS, 3600*vS, 24*3600*vS-vS, 24*3600*vS, 24*3600*vS+vS, 25*3600*vS, 72*3600*vS, 365*24*3600*vS, 45*365*24*3600*vS)...)
 	return vDedup(ds)
 }
 
@@ -451,7 +453,7 @@ func vC19Tier() (tier string, d1 []time.Duration, sub2, sub3 []vC19Meas) {
 	if tier == "" {
 		tier = "quick"
 	}
-	dA := vPM(0, vNs, 500*vMs, vS, 1500*vMs, 1950*vMs, 1999999999*vNs, 2*vS, 2000000001*vNs, 2050*vMs, 2500*vMs, 3*vS, 4*vS)
+	dA := vPM(0, vNs, 500*vMs, vS, 1500*vMs, 1950*vMs, 1999999999*vNs, 2*vS, 2000000001*vNs, 2050*vMs, 2500*vMs, 3*vS, 4*vS, 25*3600*vS, 365*24*3600*vS)
 	dB := vPM(0, vS, 1999999999*vNs, 2*vS, 2000000001*vNs, 3*vS)
 	if tier == "thorough" {
 		d1 = vDeltaGrid(10 * vMs)
